@@ -253,9 +253,10 @@ typedef struct {
 } vec_t;
 
 #define MAXREC 40
-typedef struct { vec_t v; uint64_t got; ref_t ref; int cls; char what[48]; uint64_t pinned; } rec_t;
+typedef struct { vec_t v; uint64_t got; ref_t ref; int cls; char what[112]; uint64_t pinned; } rec_t;
 static rec_t g_viol[MAXREC]; static unsigned long g_nviol;
-static rec_t g_known[NCLASS][3]; static unsigned long g_nknown[NCLASS];
+#define NKS 8
+static rec_t g_known[NCLASS][NKS]; static unsigned long g_nknown[NCLASS];
 static rec_t g_drift[6]; static unsigned long g_ndrift;
 static rec_t g_samples[8]; static int g_nsamples;
 static unsigned long g_nvec, g_ncalls, g_kind[3], g_eq_pinned_only, g_eq_fixed_only, g_timeouts;
@@ -323,7 +324,7 @@ static int judge_call(const vec_t *v, uint64_t *out, ref_t *refout)
 		if (cls && (I)r == pinned) {
 			/* exactly the known deviation: named input class AND the value the
 			 * transcription of the pinned code predicts */
-			if (g_nknown[cls] < 3) {
+			if (g_nknown[cls] < NKS) {
 				rec_t *k = &g_known[cls][g_nknown[cls]];
 				k->v = *v; k->got = r; k->ref = ref; k->cls = cls; k->pinned = (uint64_t)pinned;
 				snprintf(k->what, sizeof k->what, "known deviation");
@@ -628,7 +629,7 @@ static void print_summary(const char *mode, unsigned long carried)
 	for (int c = 1; c < NCLASS; c++) {
 		if (!g_nknown[c]) continue;
 		printf("%s\"%s\":{\"count\":%lu,\"samples\":[", first ? "" : ",", CLASS_NAMES[c], g_nknown[c]); first = 0;
-		for (unsigned long i = 0; i < g_nknown[c] && i < 3; i++) { if (i) printf(","); put_rec(stdout, &g_known[c][i]); }
+		for (unsigned long i = 0; i < g_nknown[c] && i < NKS; i++) { if (i) printf(","); put_rec(stdout, &g_known[c][i]); }
 		printf("]}");
 	}
 	printf("},\"violations\":[");
